@@ -319,6 +319,7 @@ def run(tier):
     chk.floor('rule instances', len(chk.obls), 40)
     from .. import lints
     lints.length_is_boolean(chk, ['src/ssl/ssl_rec', 'src/ssl/ssl_engine'])
+    lints.word_codec_maps(chk, ['src/hash/ghash'], floor=2)   # the GCM record tag: every data word absorbed in its own state word
     # ChaCha20-Poly1305 records: every ciphertext bit must enter the authenticator at its own weight (shared with C12)
     cbc_padding_length_range(chk)
     from .c12 import poly1305_block_decoding
